@@ -71,6 +71,8 @@ func c20Leaves() []interface{} {
 		nil, true, false,
 		int(0), int(-7), int8(math.MinInt8), int8(math.MaxInt8), int16(math.MinInt16), int16(math.MaxInt16), int32(math.MinInt32), int32(math.MaxInt32),
 		int64(math.MinInt64), int64(math.MaxInt64), int64(1) << 53,
+		// integers that no float64 represents exactly, next to the floats they round to
+		int64(1)<<53 + 1, -(int64(1) << 53) - 1, int64(math.MaxInt64) - 1, float64(int64(1) << 53), -float64(int64(1) << 53), math.Pow(2, 63), -math.Pow(2, 63),
 		uint(0), uint(5), uint8(255), uint16(65535), uint32(math.MaxUint32), uint64(math.MaxInt64), uint64(math.MaxInt64) + 1, uint64(math.MaxUint64),
 		float32(0), float32(1.5), float32(math.MaxFloat32), float64(0), math.Copysign(0, -1), 1.5, -2.25, 7.0, math.NaN(), math.Inf(1), math.Inf(-1), math.MaxFloat64, 5e-324,
 		"", "a", "é", "<b>&", "0", "false",
